@@ -109,6 +109,45 @@ Section Buffer.
   Definition buf_offset (b : buffer) (rc : coord) : nat := snd rc * brows b + fst rc.
 End Buffer.
 
+(* ---- the dispatcher on a buffer ---- *)
+Section BufDispatch.
+  Context {T : Type}.
+  Variable le lt : T -> T -> bool.
+  Variable vmax smax : T -> T -> T.
+  Variable ninf : T.
+
+  (* Pipeline<_, Dispatch> on a buffer: the Generic arm (and every arm without a kernel of its
+     own) runs the default scans over matrix().iter(); the SSE2 / AVX2 kernels walk rows
+     0..rows() from data[0].as_ptr() *)
+  Definition buf_dispatch_argmax_f32 (a : arm) (max_index : N) (b : @buffer T) : res (option coord) :=
+    match a with
+    | AGeneric => buf_argmax_generic le b
+    | _ => dispatch_argmax_f32 le lt ninf a max_index (b_logical b)
+    end.
+
+  Definition buf_dispatch_max_f32 (a : arm) (b : @buffer T) : res (option T) :=
+    match a with
+    | AAvx2 => max_f32_avx2 vmax smax (b_logical b)
+    | _ => buf_max_generic le b
+    end.
+
+  Definition buf_dispatch_threshold (a : arm) (b : @buffer T) (t : T) : list coord :=
+    buf_threshold_generic le b t.
+End BufDispatch.
+
+Definition buf_dispatch_argmax_u8 (a : arm) (b : @buffer Z) : res (option coord) :=
+  match a with
+  | AAvx2 => argmax_u8_avx2 (b_logical b)
+  | _ => buf_argmax_generic Z.leb b
+  end.
+
+Definition buf_dispatch_max_u8 (a : arm) (b : @buffer Z) : res (option Z) :=
+  match a with
+  | AAvx2 => max_u8_avx2 (b_logical b)
+  | _ => buf_max_generic Z.leb b
+  end.
+
+
 (* ---- statement skeletons read from the source (translate/maxi_tables.py -> GenMaxi.v) ---- *)
 
 (* the statements of `DenseMatrix::resize(&mut self, rows)` *)
